@@ -1,5 +1,5 @@
 // Default (weak) sink for the guarded access probes of /repo (EPH_VERIF_ACCESS): harnesses that
 // do not analyse accesses link this no-op; harness/conc.cpp provides the strong definition.
 namespace ephemeralnet::verif {
-__attribute__((weak)) void access(const char*, const char*, bool) {}
+__attribute__((weak)) void access(const char*, const char*, bool, const void*) {}
 }
